@@ -76,7 +76,7 @@ def main():
                     od = os.path.join(OUT, f"seed{s}")
                     os.makedirs(od, exist_ok=True)
                     jobs[ex.submit(run_unit, u, tpl, od, rlimit, s, False, None, args.repo)] = ("seed", u)
-        kjobs = K.submit_all(ex, cfg, HERE, OUT, args.repo, thorough)
+        kjobs = K.submit_all(ex, cfg, HERE, OUT, args.repo, thorough, prop)
         for fut in cf.as_completed(list(jobs) + list(kjobs)):
             if fut in jobs:
                 kind, u = jobs[fut]
@@ -90,7 +90,7 @@ def main():
                         base_ok = True
                         undecided.append(f"unit={u} reason=unstable-under-seed ({r.status}: {r.reason or [f['fn'] for f in r.failed]})")
             else:
-                kani_results.append(fut.result())
+                kani_results.extend(fut.result())
 
     # ---- classify Verus units -----------------------------------------------------------
     fn_under_contract, trusted, norm_log, samples = [], [], [], []
